@@ -26,6 +26,19 @@ def _extra(db, res, tier, scope):
   res.ob(None not in order and order[0] < order[1] < order[2], "_advance|order", Finding("R-SEQ.3", "forward._advance|order", "activation, velocity and position must be advanced in this order (semi-implicit Euler uses the new velocity for the position)", "mujoco_warp/_src/forward.py"))
 
 
+def _integrator_pair(fn, k) -> bool:
+  return any(x in k for x in ("forward.implicit", "forward.euler", "forward.rungekutta4")) or fn in ("forward.implicit", "forward.euler", "forward.rungekutta4", "forward._advance")
+
+
 def run(db, res, tier):
   family_a.run_family(db, res, tier, "C08", extra=_extra)
+  # the integrators' workspaces (qLU / qDeriv / qH_M / qLD, RK4's saved state) are fully (re)defined before they are
+  # accumulated into or factorised in place: otherwise the second step on a Data starts from the first step's factors
+  from ..rules import r_live
+  from ..tables import live_tables
+
+  tab = {(fn, k) for fn, k in live_tables.INIT_BEFORE_PARTIAL if _integrator_pair(fn, k)}
+  ninit = r_live.check_cleared_before_partial(res, db, ["forward.step"], tab)
+  res.floor("integrator init-before-partial pairs (R-LIVE.7)", ninit, 6)
+  res.rule_text += "; R-LIVE.7: every integrator workspace that today's tree fully defines before accumulating into it / factorising it in place still has a dominating full definition"
   res.rule_text += "; R-PAIR: RK4 restores qpos/qvel/act from its t0 clones before the final advance; R-SEQ: _advance inserts history before advancing time, advances act, qvel, qpos once each in that order, copies qacc into qacc_warmstart"
